@@ -30,6 +30,12 @@ fn dotted_input(r: &mut Rng) -> Vec<u8> {
     }
     if r.chance(2, 3) {
         s.push('.');
+        if r.chance(1, 8) {
+            // more than one final dot: an empty label before the root
+            for _ in 0..r.range(1, 3) {
+                s.push('.');
+            }
+        }
     }
     s.into_bytes()
 }
@@ -158,6 +164,8 @@ pub fn run(r: &mut Rng, n: usize, out: &mut Out) {
                 } else {
                     gen::plain_name(r, 4)
                 };
+                // both directions: an ancestor is not a subdomain of its descendant
+                let (a, b) = if r.chance(1, 3) { (b, a) } else { (a, b) };
                 let res = a.is_subdomain_of(&b);
                 out.case(&["name.isSub", &c::name(&a), &c::name(&b)], if res { "1" } else { "0" });
             }
